@@ -301,7 +301,15 @@ fn check_declared(f: &AFile, s: &ConfigState, r: &mut ImplRun) {
     let fmt_l = |proto: &str, addr: &str, x: &X, ep: bool| -> String {
         let t = |k: &str, g: &str, d: u32| x.get(k).and_then(|v| v.parse().ok()).unwrap_or(gx(g, d));
         match proto {
-            "udp" => format!("udp:{addr}:act={}:ft={}:bt={}", f.activate as u8, x.get("ft").and_then(|v| v.parse().ok()).unwrap_or(30u32), x.get("bt").and_then(|v| v.parse().ok()).unwrap_or(30u32)),
+            "udp" => format!(
+                "udp:{addr}:act={}:ft={}:bt={}:rx={}:flows={}",
+                f.activate as u8,
+                x.get("ft").and_then(|v| v.parse().ok()).unwrap_or(30u32),
+                x.get("bt").and_then(|v| v.parse().ok()).unwrap_or(30u32),
+                // documented: a datagram size above buffer_size is clamped to buffer_size
+                (x.get("maxrx").and_then(|v| v.parse::<u64>().ok()).unwrap_or(1500)).min(f.buffer),
+                x.get("maxflows").and_then(|v| v.parse::<u32>().ok()).unwrap_or(0)
+            ),
             "tcp" => format!("tcp:{addr}:act={}:ft={}:bt={}:ct={}:ep={}", f.activate as u8, t("ft", "gft", 60), t("bt", "gbt", 30), t("ct", "gct", 3), ep as u8),
             p => format!("{p}:{addr}:act={}:ft={}:bt={}:ct={}:rt={}:ep={}:sticky={}", f.activate as u8, t("ft", "gft", 60), t("bt", "gbt", 30), t("ct", "gct", 3), t("rt", "grt", 10), ep as u8, x.get("sticky").cloned().unwrap_or_else(|| "SOZUBALANCEID".into())),
         }
@@ -330,7 +338,7 @@ fn check_declared(f: &AFile, s: &ConfigState, r: &mut ImplRun) {
         got_l.push(format!("tcp:{a}:act={}:ft={}:bt={}:ct={}:ep={}", x.active as u8, x.front_timeout, x.back_timeout, x.connect_timeout, x.expect_proxy as u8));
     }
     for (a, x) in &s.udp_listeners {
-        got_l.push(format!("udp:{a}:act={}:ft={}:bt={}", x.active as u8, x.front_timeout, x.back_timeout));
+        got_l.push(format!("udp:{a}:act={}:ft={}:bt={}:rx={}:flows={}", x.active as u8, x.front_timeout, x.back_timeout, x.max_rx_datagram_size, x.max_flows));
     }
     if let Some(d) = multiset_diff("listeners", &want_l, &got_l) {
         r.oracle.push(("declared-not-loaded:listeners".into(), d));
@@ -351,7 +359,7 @@ fn check_declared(f: &AFile, s: &ConfigState, r: &mut ImplRun) {
         .filter(|c| !c.hc_bad)
         .map(|c| {
             format!(
-                "{}:lb={}:sticky={}:redir={}:http2={:?}:mcpi={:?}:retry={:?}:hc={}",
+                "{}:lb={}:sticky={}:redir={}:http2={:?}:mcpi={:?}:retry={:?}:hc={}:udp={}",
                 c.id,
                 lb_num(c.x.get("lb")),
                 if c.tcp { false } else { b(c.x.get("sticky")) },
@@ -359,7 +367,18 @@ fn check_declared(f: &AFile, s: &ConfigState, r: &mut ImplRun) {
                 if c.tcp { None } else { c.x.get("http2").map(|s| s == "true") },
                 c.x.get("mcpi").and_then(|v| v.parse::<u64>().ok()),
                 c.x.get("retry").and_then(|v| v.parse::<u32>().ok()),
-                c.x.get("hcuri").cloned().unwrap_or_else(|| "-".into())
+                c.x.get("hcuri").cloned().unwrap_or_else(|| "-".into()),
+                if c.x.keys().any(|k| k.starts_with("udp_")) {
+                    format!(
+                        "aff={:?},resp={:?},req={:?},pp={:?}",
+                        c.x.get("udp_aff").map(|v| if v == "SOURCE_IP_PORT" { 1 } else { 0 }),
+                        c.x.get("udp_resp").and_then(|v| v.parse::<u32>().ok()),
+                        c.x.get("udp_req").and_then(|v| v.parse::<u32>().ok()),
+                        c.x.get("udp_pp").map(|v| v == "true")
+                    )
+                } else {
+                    "-".into()
+                }
             )
         })
         .collect();
@@ -368,7 +387,7 @@ fn check_declared(f: &AFile, s: &ConfigState, r: &mut ImplRun) {
         .values()
         .map(|c| {
             format!(
-                "{}:lb={}:sticky={}:redir={}:http2={:?}:mcpi={:?}:retry={:?}:hc={}",
+                "{}:lb={}:sticky={}:redir={}:http2={:?}:mcpi={:?}:retry={:?}:hc={}:udp={}",
                 c.cluster_id,
                 c.load_balancing,
                 c.sticky_session,
@@ -376,7 +395,8 @@ fn check_declared(f: &AFile, s: &ConfigState, r: &mut ImplRun) {
                 c.http2,
                 c.max_connections_per_ip,
                 c.retry_after,
-                c.health_check.as_ref().map(|h| h.uri.clone()).unwrap_or_else(|| "-".into())
+                c.health_check.as_ref().map(|h| h.uri.clone()).unwrap_or_else(|| "-".into()),
+                c.udp.as_ref().map(|u| format!("aff={:?},resp={:?},req={:?},pp={:?}", u.affinity_key, u.responses, u.requests, u.send_proxy_protocol)).unwrap_or_else(|| "-".into())
             )
         })
         .collect();
